@@ -1,5 +1,6 @@
 import XmppModel.Prelude.Hex
 import XmppModel.Model.Mux
+import XmppModel.Model.MuxElem
 /-!
 Driver for C14 (see harness/c14).  Patterns are written `k:typ:space:loc` (k ∈ t|i|m|p, the
 other fields hex), pattern lists `,`-joined (`-` empty), names `space:loc` (hex).
@@ -19,6 +20,20 @@ other fields hex), pattern lists `,`-joined (`-` empty), names `space:loc` (hex)
     hist <stanzaNS> <op,op,…>                     -> `;`-joined results; op = R<pattern> | R!<pattern> (nil handler) |
                                                      L<pattern as query> | D<name>
     register <patterns> <pattern> <nil>           -> ok | panic
+    elem <ctor> <stanzaNS> <patterns> <toks> <cons> -> HandleXMPP on a complete top-level element, the multiplexer built by
+                                                     <ctor> = new | late | zero | value: `/`-joined patterns of the handlers
+                                                     that ran | - | fallback@<to>/<from>/<id> | err
+    overlap <mode> <warm> <patterns> <toksA> <consA> <at> <pre> <toksB> <consB>
+                                                  -> <calls of A>&<calls of B>: stanza B is dispatched through the same
+                                                     multiplexer while the handler with ordinal <at> of stanza A has read
+                                                     <pre> tokens (mode nest: from inside that handler; conc / conc2: on
+                                                     another goroutine), after <warm> earlier dispatches
+    cut <k> <typ> <patterns> <toks> <cons> <cut>  -> <calls>|fail: the reader hands out the first <cut> tokens of the stanza and
+                                                     then fails; HandleXMPP must return that error
+    direct … <errs> <parsemap>, iqdirect … <c> <parsemap>
+                                                  -> as above with the verdicts of jid.Parse on the addresses that occur
+                                                     (`,`-joined <raw>=<canonical> | <raw>=!): `addrerr` / `err` when an own
+                                                     address is rejected; direct appends |a=<to>/<from> of the stanza value
 -/
 namespace XmppModel.Driver.C14
 open XmppModel XmppModel.Xml XmppModel.Mux
@@ -68,8 +83,89 @@ def encHRes : HRes → String
   | .found p => "h=" ++ encPattern p | .notFound => "none"
   | .router => "router" | .nop => "nop"
 
+def decParse (s : String) : Option (List (String × Option String)) :=
+  if s == "-" then some [] else mapM? (fun e =>
+    match e.splitOn "=" with
+    | [r, c] => do
+      let r ← unhexF r
+      if c == "!" then pure (r, none) else do let c ← unhexF c; pure (r, some c)
+    | _ => none) (s.splitOn ",")
+
+def parseOf (m : List (String × Option String)) : ParseFn := parseOfList m
+
+def decCtor (s : String) : Option Ctor :=
+  if s == "new" then some .new else if s == "late" then some .late else if s == "zero" then some .zero
+  else if s == "value" then some .value else if s == "redis" then some .redis else none
+
+def encCalls (all : List Call) : String :=
+  let calls := all.filterMap fun c => c.pat.map fun p => encPattern p ++ "=" ++ encToks c.view
+  if calls.isEmpty then "-" else "/".intercalate calls
+
+def kindOfToks (toks : List Tok) : Kind :=
+  match toks with
+  | .start n _ :: _ => if n.loc == "presence" then .pres else .msg
+  | _ => .msg
+
+/-- one dispatch of an overlap line, on its own: a message / presence through `stanzaRoute`, an
+IQ through `iqRouteA` -/
+def encDispatch (pats : Table) (toks : List Tok) (cons : List Nat) : String :=
+  match toks with
+  | .start n _ :: _ =>
+    if n.loc == "iq" then
+      (match iqRouteA pats toks (cons.headD 0) with
+       | .handler p pn view => "h=" ++ encPattern p ++ "@" ++ hexF pn.space ++ ":" ++ hexF pn.loc ++ "=" ++ encToks view
+       | .reply h => "fallback@" ++ hexF h.to ++ "/" ++ hexF h.frm ++ "/" ++ hexF h.id
+       | .nothing => "nothing"
+       | .err => "err")
+    else encCalls (stanzaRoute .sep pats (kindOfToks toks) toks cons)
+  | _ => "-"
+
 def handle (args : List String) : Option String :=
   match args with
+  | ["elem", ctor, ns, pats, toks, cons] => do
+    let ctor ← decCtor ctor; let ns ← field ns; let pats ← decPatterns pats
+    let toks ← decToks toks; let cons ← decNats cons
+    pure (match handleElem pats (muxNS ctor ns) toks cons with
+      | .ran ps => if ps.isEmpty then "-" else "/".intercalate (ps.map encPattern)
+      | .reply h => "fallback@" ++ hexF h.to ++ "/" ++ hexF h.frm ++ "/" ++ hexF h.id
+      | .err => "err")
+  | ["cut", k, typ, pats, toks, cons, cut] => do
+    let k ← decKind k; let typ ← field typ; let pats ← decPatterns pats
+    let toks ← decToks toks; let cons ← decNats cons; let cut ← cut.toNat?
+    let mtyp := (stanzaHdr k (startAttrs toks)).typ
+    if mtyp != typ then pure s!"MODEL-TYPE={hexF mtyp}" else
+    pure (encCalls (stanzaRouteCut pats k toks cons cut) ++ "|fail")
+  | ["overlap", _mode, _warm, pats, toksA, consA, _at, _pre, toksB, consB] => do
+    let pats ← decPatterns pats
+    let toksA ← decToks toksA; let consA ← decNats consA
+    let toksB ← decToks toksB; let consB ← decNats consB
+    -- the multiplexer keeps nothing between or during dispatches: each is its own router run
+    pure (encDispatch pats toksA consA ++ "&" ++ encDispatch pats toksB consB)
+  | ["direct", fr, k, typ, pats, toks, cons, errs, pm] => do
+    let fr ← (if fr == "sep" then some Framing.sep else if fr == "eof" then some Framing.eof else none)
+    let k ← decKind k; let typ ← field typ; let pats ← decPatterns pats
+    let toks ← decToks toks; let cons ← decNats cons; let errs ← decNats errs
+    let pm ← decParse pm
+    match stanzaRouteP (parseOf pm) fr pats k toks cons with
+    | none => pure "addrerr"
+    | some (all, h) =>
+      if h.typ != typ then pure s!"MODEL-TYPE={hexF h.typ}" else
+      let failed := failedCalls all errs
+      let e := if failed.isEmpty then "-" else ",".intercalate (failed.map toString)
+      let w := writesOf all
+      let ws := if w.isEmpty then "-" else ",".intercalate (w.map toString)
+      let a := if (ranOf all).isEmpty then "-" else hexF h.to ++ "/" ++ hexF h.frm
+      pure (encCalls all ++ "|err=" ++ e ++ "|w=" ++ ws ++ "|a=" ++ a)
+  | ["iqdirect", _fr, typ, pats, toks, c, pm] => do
+    let typ ← field typ; let pats ← decPatterns pats; let toks ← decToks toks; let c ← c.toNat?
+    let pm ← decParse pm
+    let mtyp := (stanzaHdr .iq (startAttrs toks)).typ
+    if mtyp != typ then pure s!"MODEL-TYPE={hexF mtyp}" else
+    pure (match iqRouteP (parseOf pm) pats toks c with
+      | .handler p n view => "h=" ++ encPattern p ++ "@" ++ hexF n.space ++ ":" ++ hexF n.loc ++ "=" ++ encToks view
+      | .reply h => "fallback@" ++ hexF h.to ++ "/" ++ hexF h.frm ++ "/" ++ hexF h.id
+      | .nothing => "nothing"
+      | .err => "err")
   | ["lookup", k, typ, n, pats] => do
     let k ← decKind k; let typ ← field typ; let n ← decName n; let pats ← decPatterns pats
     pure (match lookup pats k typ n with | some p => encPattern p | none => "none")
